@@ -7,7 +7,7 @@ PROPS = {
                      "check_one_checkfile / main (what --check counts and what the exit status is), over a ghost stdout "
                      "log, a file-system function and a line-source model; hash_path's real body is verified against a "
                      "model of blake3::Hasher whose clauses are the contracts C02/C03/C11 verify on the crate; "
-                     "write_raw_output / clap / read_key_from_stdin are assumed contracts (partial claim: see level_note)",
+                     "write_raw_output and clap are assumed contracts (partial claim: see level_note)",
         "level_text": "unbounded deductive proof (Verus/z3) for the FUNCTION-LEVEL half of the statement, every line, path, "
                       "checkfile length and number of inputs: write_hex_output appends the lowercase hex of exactly "
                       "S[pos..pos+length] of the reader it is given (hash_one_input: of the reader hash_path positioned at "
@@ -23,7 +23,7 @@ PROPS = {
         "level_note": "PARTIAL: the process-level half of C12 (clap's argument grammar and conflicts, reading the key from "
                       "stdin, the real stdout / stderr, File::open / BufReader / stdin selection in check_one_checkfile, "
                       "rayon_core's pool, --raw output) is NOT under contract: "
-                      "write_raw_output, clap (vf_parse_inner) and read_key_from_stdin are ASSUMED contracts, hash_path and Args::parse are verified over ASSUMED models of "
+                      "write_raw_output and clap (vf_parse_inner) are ASSUMED contracts, hash_path, Args::parse and read_key_from_stdin are verified over ASSUMED models of "
                       "blake3::Hasher / File / stdin, the reader-selection prologue of "
                       "check_one_checkfile is replaced by a line-source model (its loop is the real code), the closure "
                       "passed to ThreadPool::install is verified as main's own block and process::exit(c) as `return` of "
@@ -49,8 +49,8 @@ PROPS = {
                        "printing half (write_hex_output's loop invariant over the XOF stream, hash_one_input's line) is "
                        "shared with C13.",
         "uncovered": [
-            "clap's derive-generated parser (the option grammar, conflicts / requires between --check, --raw, --keyed ...) and "
-            "read_key_from_stdin's body - assumed contracts; Args::parse's own body (default `-`, the --raw single-file rule, "
+            "clap's derive-generated parser (the option grammar, conflicts / requires between --check, --raw, --keyed ...) - "
+            "assumed contract; read_key_from_stdin's and Args::parse's own bodies (default `-`, the --raw single-file rule, "
             "selection of the base hasher) IS verified",
             "below hash_path: that blake3::Hasher / File / stdin behave as the b3sum-side model says is C02/C03/C10/C11 on the "
             "crate (verified there) plus the OS; the bounded exploration of the thorough tier runs the real binary over "
@@ -71,6 +71,10 @@ PROPS = {
             "appends exactly the file's bytes or fails; finalize_xof(&self) -> reader at 0 on sp_stream_id(mode, absorbed)}, "
             "OutputReader::set_position, File::open, io::stdin().lock(), `path == Path::new(\"-\")` (vf_path_is_dash); "
             "@subst: update_reader / update_mmap_rayon -> vf_* (their `&mut Self` result is dropped by the real code)",
+            "read_key_from_stdin (VERIFIED body): Ok(k) IFF standard input holds exactly 32 bytes, and k is those bytes; ASSUMED "
+            "below it: vf_stdin_take_read_to_end (= std::io::stdin().lock().take(limit).read_to_end(&mut buf)?: appends the "
+            "first min(limit, |stdin|) bytes and returns their number) - the limit expression KEY_LEN + 1 stays the real "
+            "code -, vf_vec_prefix / vf_key_from_slice (= bytes[..KEY_LEN].try_into().unwrap(), which requires 32 items)",
             "axiom_fs_fixed (ASSUMED): sp_fs_stream(path) == sp_stream_for(args, path) for the Args of this run - the file "
             "system, stdin's bytes and the options do not change during the run; paths are identified by their lossy "
             "rendering",
@@ -78,8 +82,7 @@ PROPS = {
             "or [`-`] if it is empty, exactly one input with --raw, the base hasher has absorbed nothing and is in the mode "
             "the options select (keyed with the 32 stdin bytes / derive-key with the context / hash); Err => the key could "
             "not be read or --raw was given with several inputs. ASSUMED below it: vf_parse_inner (= clap's derive-generated "
-            "Inner::parse_from(wild::args_os()), incl. `--check conflicts with --raw`), read_key_from_stdin (Ok(k) => k is "
-            "sp_stdin_key()), blake3::Hasher::{new, new_keyed, new_derive_key} (mode = function of nothing / key / context; "
+            "Inner::parse_from(wild::args_os()), incl. `--check conflicts with --raw / --keyed`), blake3::Hasher::{new, new_keyed, new_derive_key} (mode = function of nothing / key / context; "
             "verified on the crate under C01/C02), Vec<PathBuf>::clone (vf_clone_paths), vec![\"-\".into()] (vf_dash_paths)",
             "vf_open_checkfile / VfLineReader::read_line (ASSUMED, replaces the reader-selection prologue of "
             "check_one_checkfile via @subst): Ok(reader over sp_checkfile_lines(path)) / Err iff None; read_line appends "
